@@ -459,11 +459,37 @@ impl World {
             }
             target = Some(t);
         }
+        // the target stays outside the closure: after a panic inside clone_from
+        // it is still the caller's cache and has to be a valid one
         let mut target_slot = target.take();
-        let run = self.run(&[], |c| match target_slot.take() {
-            Some(mut t) => { t.clone_from(c); t },
-            None => c.clone(),
+        let tref = &mut target_slot;
+        let run = self.run(&[], |c| -> Option<Cache> {
+            match tref.as_mut() {
+                Some(t) => { t.clone_from(c); None },
+                None => Some(c.clone()),
+            }
         });
+        let run = Run { ret: run.ret.map(|r| r.or_else(|| target_slot.take()).expect("a clone")),
+            counts: run.counts, builds: run.builds, panic: run.panic, injected: run.injected };
+        if run.panic.is_some() {
+            if let Some(t) = target_slot.take() {
+                // C16: usable and consistent after the unwind
+                match t.verif_structure() {
+                    Err(e) => self.fail(vec!["C16", "C14", "C07"], "clone_from-panic-structure".into(),
+                        format!("after a panic inside clone_from the target's structure is broken: {}", e)),
+                    Ok(st) => {
+                        let sum: usize = st.sizes.iter().sum();
+                        let (cur, len) = (t.current_size(), t.len());
+                        ck!(self, sum == cur && len == st.sizes.len(), ["C16", "C14", "C02"], "clone_from-panic-accounting",
+                            "after a panic inside clone_from the target reports current_size {} / len {} but holds {} entries whose recorded sizes sum to {}",
+                            cur, len, st.sizes.len(), sum);
+                    },
+                }
+                self.leaks_allowed = true;
+                drop(t);
+                self.collect_vios("dropping a clone_from target after a panic");
+            }
+        }
         if mode == CloneMode::From && run.panic.is_none() {
             self.collect_vios("clone_from");
             self.expect_dropped(&target_ents, vec!["C06", "C14"], "previous contents of a clone_from target");
